@@ -5,6 +5,7 @@ import numpy as np
 
 from .. import gen_circuit as G
 from .. import ref_mv as R
+from ..simutil import KRandom
 
 ID = 'C18'
 TECHNIQUE = 'runtime monitoring: seeded scan circuits and TetraMAX-style STIL texts (own renderer) are parsed by the real parser; the arrays assembled by the real tests(), responses() and tests_loc() are compared cell by cell with the generator\'s expectation (chain order, cumulative inversion parity, signal-group mapping, row order, LoC transitions from an independent next-state evaluation)'
@@ -283,7 +284,7 @@ def check_case(ctx, case, idx):
     from kyupy import stil
     rng = random.Random(case['rseed'])
     text = render(case, rng)
-    wit = {'stil': text, 'netlist': G.net_text(case['net']), 'style': case['style']}
+    wit = {'stil': text, 'netlist': G.net_text(case['net']), 'style': case['style'], 'rngkey': case.get('rngkey')}
     with ctx.guard('stil-raises', wit):
         b = G.build(case['net'])
         tests, resp, loc, skip_t, skip_l, stats = expectations(case, b)
@@ -326,11 +327,10 @@ def check_case(ctx, case, idx):
 
 def run(spec, ctx):
     for i in range(spec['n']):
-        rng = random.Random(f'C18/{spec["seed"]}/{spec["shard"]}/{i}')
-        check_case(ctx, gen_case(rng), i)
+        rng = KRandom(f'C18/{spec["seed"]}/{spec["shard"]}/{i}')
+        check_case(ctx, dict(gen_case(rng), rngkey=rng.key), i)
 
 
 def replay(case, ctx):
-    for i in range(300):
-        rng = random.Random(f'C18replay/{i}')
-        check_case(ctx, gen_case(rng), 9)
+    rng = KRandom(case['rngkey'])
+    check_case(ctx, dict(gen_case(rng), rngkey=rng.key), 9)
